@@ -1001,6 +1001,8 @@ class UKF:
         _assert_numerical_iterable(gyr, 'Tri-axial gyroscope sample')
         _assert_numerical_iterable(acc, 'Tri-axial accelerometer sample')
         dt = self.Dt if dt is None else dt
+        if np.linalg.norm(acc) == 0:
+            return q
         ## Prediction
         # 1. Generate sigma points
         sigma_points = self.compute_sigma_points(q, self.P)
